@@ -27,6 +27,23 @@ def check_option_passthrough(rep, rule, ty='WriteOptions'):
                 # closures read the options through their captured environment: the root is then local 1 (the closure itself)
                 own = r is not None and 1 <= r[0] <= cb.arg_count and (ty in cb.locals[r[0]] or cb.kind == 'Closure') and \
                     all(seg in ('', '&', '*') for seg in [r[1].replace('&', '').replace('*', '')] if cb.kind != 'Closure')
+                if not own and r is not None and r[1].replace('&', '').replace('*', '').count('.') >= 1 and r[0] > cb.arg_count:
+                    # the options read back out of a context record (`context.options` with `context = ShaderContext::new(&module, options)?`): the
+                    # record was built by a crate function that was handed this function's own options (what it stored is judged by the
+                    # options-in-record obligations below)
+                    try:
+                        _, calls_, _ = cb.backward_slice([r[0]])
+                    except Exception:
+                        calls_ = []
+                    for _, c_ in calls_:
+                        B2 = mir.bodies.get(cname(c_))
+                        if B2 is None or B2.kind == 'Closure':
+                            continue
+                        for j2 in range(B2.arg_count):
+                            if ty in B2.locals[j2 + 1] and j2 < len(c_['args']) and op_place(c_['args'][j2]):
+                                r2 = canon(cb, op_place(c_['args'][j2]))
+                                if 1 <= r2[0] <= cb.arg_count and ty in cb.locals[r2[0]] and r2[1].replace('&', '').replace('*', '') == '':
+                                    own = True
                 rep.check(own, rule, f'options-passthrough:{cn}->{callee.split("::")[-1]}', cb.where(bb),
                           f'{cn} does not hand its own `{ty}` parameter unchanged to {callee} (argument root {r}): an option is changed on the way, so the output / the gates '
                           f'no longer follow the options the caller gave', ok_detail=f'{ty} forwarded unchanged')
